@@ -118,7 +118,7 @@ CLAIMS = {
         "ref": "DESIGN.md §4 C08",
     },
     "C09": {
-        "technique": "Lean 4 round-trip theorems (emitter ∘ reference reader = id) for JSON strings, CSV fields, HTML cells and flat rows, and for whole CSV documents and whole JSON arrays of objects (induction over fields, records, members, rows) + CLI correspondence + Python json/csv/html.parser oracle",
+        "technique": "Lean 4 round-trip theorems (emitter ∘ reference reader = id) for JSON strings, CSV fields, HTML cells and flat rows, and for whole CSV documents, JSON arrays of objects and HTML tables (induction over fields, records, members, cells, rows) + CLI correspondence + Python json/csv/html.parser oracle",
         "text": ("Theorems for every value (any characters, any length): serde-style JSON escaping is inverted by an RFC 8259 string reader "
                  "that rejects raw quotes and control characters; RFC 4180 quoting is inverted by the field reader whatever follows the "
                  "field; HTML escaping is inverted by entity decoding and emits no < or > (D18 fixed); tabs/lines/list rows split back when "
@@ -126,8 +126,10 @@ CLAIMS = {
                  "read by an RFC 4180 record reader is exactly the list of rows — one record per row, also the lone empty field "
                  "(csv_record_roundtrip, csv_document_roundtrip); header `[`, rows joined by `,`, footer `]` is read back as one JSON array "
                  "with one object per row, each object the key/value map the row was written from (json_literal_roundtrip, "
-                 "json_object_roundtrip, json_document_roundtrip). That the four result paths emit header/rows/separators/footer in this "
-                 "shape, and the HTML document, are decided by correspondence (bytes vs model) and by Python's parsers against the `into list` run. Known finding D19 "
+                 "json_object_roundtrip, json_document_roundtrip); the HTML document — header, one <tr> per row with one <td> per value, footer — is "
+                 "read back as the list of rows, every cell unescaped to its value (html_text_in_context, html_row_roundtrip, "
+                 "html_document_roundtrip). That the four result paths emit header/rows/separators/footer in this "
+                 "shape is decided by correspondence (bytes vs model) and by Python's parsers against the `into list` run. Known finding D19 "
                  "(identical column texts share a JSON key) is reported as KNOWN-FINDING."),
         "ref": "DESIGN.md §4 C09",
     },
